@@ -357,13 +357,13 @@ package scheduler
 //@   props C01 C02 C03 C04 C05 C11 C15
 //@   requires nodes_wf(g) && graph_wf(g)
 //@   requires forall i int :: 0 <= i && i < len(g.nodes) ==> has(g.dict, g.nodes[i].id)
-//@   modifies *
+//@   modifies sc.handlers, sc.lastError, g.startedAt, g.finishedAt, heap(Node), heap(alloc), heap(map(dag.HandlerType, *Node)),
+//@            heap(elems(string)), heap(elems(dag.Condition)),
+//@            ghost launch, ghost hruns, ghost hlog, ghost nsetup, ghost nexec, ghost execfail, ghost dirty, ghost ntear,
+//@            ghost eff.exec, ghost eff.env, ghost eff.fs, ghost eff.condfail, ghost eff.waited,
+//@            ghost obs.run_calls, ghost obs.run_err, ghost outvar.stores, ghost outvar.key, ghost outvar.val, ghost env.key, ghost env.val, ghost obs.buf_string
 //@   records eff.sched = old(eff.sched) + 1
-//@   ensures [C03 scheduling_writes_no_history] eff.hist == old(eff.hist) && eff.sock == old(eff.sock) &&
-//@        hist.writes == old(hist.writes) && hist.opens == old(hist.opens) && hist.closes == old(hist.closes) &&
-//@        hist.last_write_sched == old(hist.last_write_sched) && hist.writes_at_close == old(hist.writes_at_close) &&
-//@        probe.count == old(probe.count) && probe.ok == old(probe.ok) && obs.agent_setup_err == old(obs.agent_setup_err) && obs.precond_err == old(obs.precond_err) &&
-//@        obs.cycle == old(obs.cycle) && obs.cycle_calls == old(obs.cycle_calls)
+//@   ensures [C03 scheduling_keeps_the_graph] nodes_wf(g) && graph_wf(g)
 //@   expect calls go (*Scheduler).Schedule$1 >= 1
 //@   expect calls isReady >= 1
 //@   assert before go [C01 deps_ok_at_launch]
@@ -542,3 +542,36 @@ package scheduler
 //@        (g.nodes[i].data.State.Status == old(g.nodes[i].data.State.Status) ||
 //@         (old(g.nodes[i].data.State.Status) == NodeStatusRunning && g.nodes[i].data.State.Status == NodeStatusCancel))
 //@   loop 0 invariant forall i int :: 0 <= i && i <= idx ==> g.nodes[i].data.State.Status != NodeStatusRunning
+
+//@ fn (Status).String(s) (r)
+//@   props C08
+//@   trusted
+//@   pure
+//@ fn (NodeStatus).String(s) (r)
+//@   props C08
+//@   trusted
+//@   pure
+
+//@ ghost obs.nodedata_len int
+//@ fn (*ExecutionGraph).NodeData(g) (ret)
+//@   props C08
+//@   requires nodes_wf(g)
+//@   modifies heap(alloc), ghost obs.nodedata_len
+//@   records obs.nodedata_len = len(ret)
+//@   ensures [C08 snapshot_of_every_node] len(ret) == len(g.nodes)
+//@   ensures [C08 snapshot_is_the_node_state] forall i int :: 0 <= i && i < len(g.nodes) ==> ret[i] == g.nodes[i].data
+//@   loop 0 invariant len(ret) == idx + 1
+//@   loop 0 invariant forall i int :: 0 <= i && i <= idx ==> ret[i] == g.nodes[i].data
+//@ fn (*ExecutionGraph).StartAt(g) (r)
+//@   props C08
+//@   ensures r == g.startedAt
+//@ fn (*ExecutionGraph).FinishAt(g) (r)
+//@   props C08
+//@   ensures r == g.finishedAt
+//@ fn (*Scheduler).HandlerNode(sc, name) (n)
+//@   props C08
+//@   trusted
+//@   noeffect
+//@ fn (*Node).Data(n) (d)
+//@   props C08
+//@   ensures d == n.data
